@@ -175,6 +175,19 @@ class DropletTrack:
             return None
         else:
             d0 = self.first
+            # all droplets need to be of the same class and have the same data layout
+            # since the class and the layout of the first droplet describe all data
+            for droplet in self.droplets:
+                if (
+                    droplet.__class__ is not d0.__class__
+                    or droplet.data.dtype != d0.data.dtype
+                ):
+                    raise TypeError(
+                        "DropletTrack data cannot be stored contiguously if it contains "
+                        f"different droplet types: {d0.__class__.__name__} "
+                        f"{d0.data.dtype} and {droplet.__class__.__name__} "
+                        f"{droplet.data.dtype}"
+                    )
             dtype = [("time", "f8")] + d0.data.dtype.descr
             result = np.empty(len(self), dtype=dtype)
             for i in range(len(self)):
